@@ -107,6 +107,10 @@ def freespace_obligations(run, db, rule):
         raise AnalysisError('angular_spectrum_transfer_function: no returning path')
     for p in res:
         v = p.value
+        for e in p.events:
+            if e['kind'] == 'vecstore':
+                run.finding(rule, f.qual, 'store into a transfer-function factor', 'samples of the transfer function are overwritten with %r after exp(): the kernel no longer has unit modulus everywhere '
+                            '(energy is not conserved, -z does not undo z)' % (e['value'],), f.loc(e['node']))
         if not isinstance(v, Mat):
             raise AnalysisError('angular_spectrum_transfer_function does not return outer(tfy, tfx): %r' % (v,))
         ea = exp_arg(dom, v.elem)
@@ -199,6 +203,7 @@ def check(run, db, tier):
     run.rule('C03.kernel', 'fixed-sampling kernels have the physical frequency per axis and an output grid translated by exactly shift/dx_out samples (both engines)')
     run.rule('C03.units', 'every phase argument equals the textbook dimensionless phase under the documented units')
     run.rule('C03.wrapper', 'Wavefront fixed-sampling wrappers pass spacings in the right roles and report the requested dx')
+    run.rule('C03.grid', 'coordinate vectors that the engines shift in place are fresh per call (never shared through a memo)')
     run.rule('C03.fftdx', 'the dx reported by the FFT route equals lambda f/(N dx) for each axis of the transformed array')
     run.group(formula_rules, run, db)
     par = [dict(zip(['n0', 'n1', 'M0', 'M1'], b)) for b in ((0, 0, 0, 0), (0, 1, 1, 0))]
@@ -207,6 +212,8 @@ def check(run, db, tier):
     run.group(units_rules, run, db)
     run.group(freespace_obligations, run, db, 'C03.units')
     run.group(wavefront_rules, run, db)
+    from .c01 import fresh_rules
+    run.group(fresh_rules, run, db, 'C03.grid')
     run.require_instances('C03.formula', 4)
     run.require_instances('C03.kernel', 100)
     run.require_instances('C03.units', 4)
